@@ -1005,4 +1005,62 @@ theorem runG_bins_get (g : G F) (evs : List Ev) (i : Nat) (b' : Bins) (hb' : (ru
     | none => rw [hb] at hb1; cases hb1
     | some b => exact ⟨b, rfl⟩
 
+/-! ## The `dropped` bin, entry by entry (audit round 2) -/
+
+/-- **Bookkeeping of the `dropped` list.**  Every entry a run adds to `dropped` names a `client` event of the run
+(`evs[k]`) carrying a NON-EMPTY datagram; the entry is that datagram under the tag that was fresh when the event
+was processed (the `next` counter after the first `k` events); and the routing decision of that event, in the
+state the run had reached, was `none`. -/
+theorem runG_dropped (g : G F) (evs : List Ev) :
+    ∃ extra, (runG g evs).dropped = g.dropped ++ extra ∧ ∀ x ∈ extra, ∃ k now pkt,
+      evs[k]? = some (.client now pkt) ∧ pkt.isEmpty = false ∧ x = ((runG g (evs.take k)).next, pkt) ∧
+      target (run g.sys (evs.take k)).1 pkt now = none := by
+  induction evs generalizing g with
+  | nil => exact ⟨[], by simp [runG], by simp⟩
+  | cons ev evs ih =>
+    obtain ⟨extra1, e1, hx1⟩ := ih (stepG g ev)
+    simp only [runG]
+    refine ⟨(if noTarget g.sys ev then newAcc g.next ev else []) ++ extra1, ?_, ?_⟩
+    · rw [e1]; simp only [stepG, List.append_assoc]
+    · intro x hx
+      rcases List.mem_append.1 hx with hx | hx
+      · -- the head event dropped its datagram
+        split at hx
+        · rename_i hnt
+          cases ev with
+          | client now pkt =>
+            simp only [noTarget, Option.isNone_iff_eq_none] at hnt
+            unfold newAcc accepts at hx
+            by_cases hpe : pkt.isEmpty = true
+            · simp [hpe] at hx
+            · simp only [hpe, Bool.false_eq_true, if_false, List.mem_singleton] at hx
+              exact ⟨0, now, pkt, rfl, by simpa using hpe, by rw [hx]; rfl, hnt⟩
+          | _ => simp [noTarget] at hnt
+        · cases hx
+      · obtain ⟨k, now, pkt, q1, q2, q3, q4⟩ := hx1 x hx
+        refine ⟨k + 1, now, pkt, by simpa using q1, q2, ?_, ?_⟩
+        · simp only [List.take_succ_cons, runG]; exact q3
+        · simp only [List.take_succ_cons, run]; exact q4
+
+/-- `select_pre_registration_connection` returns nothing only when EVERY link is timed out at that clock. -/
+theorem selectPreRegistration_none (ls : List (FLink F)) (last : Option Nat) (now : Nat)
+    (h : selectPreRegistration ls last now = none) : ∀ l ∈ ls, l.isTimedOut now = true := by
+  have fin : List.findIdx? (fun (c : FLink F) => !c.isTimedOut now) ls = none → ∀ l ∈ ls, l.isTimedOut now = true := by
+    intro h l hl
+    have := List.findIdx?_eq_none_iff.1 h l hl
+    simpa using this
+  unfold selectPreRegistration at h
+  dsimp only at h
+  cases last with
+  | none => simp only [Bool.false_eq_true, if_false] at h; exact fin h
+  | some i =>
+    dsimp only at h
+    cases hl : ls[i]? with
+    | none => simp only [hl, Bool.false_eq_true, if_false] at h; exact fin h
+    | some c =>
+      simp only [hl] at h
+      split at h
+      · cases h
+      · exact fin h
+
 end Srtla.Sys.Ghost
